@@ -39,8 +39,8 @@ for name in os.listdir(os.path.join(V, "seeded")):
         own = json.load(open(f))["results"].get(mm["property"], {})
         s1[0] += 1
         s1[1] += own.get("exit") == 1
-history = ("\nSix rounds of seeded changes were written (2 per property and round, by agents that never saw /verif). On FIRST contact each round "
-           "exposed gaps: of the 40 new seeds per round, between 6 and 14 were missed or caught only as `no-failing-input-found`; every gap was closed by "
+history = ("\nSeven rounds of seeded changes were written (2 per property and round, the seventh cut short at 21 seeds, by agents that never saw /verif). On FIRST contact each round "
+           "exposed gaps: of the new seeds of a round, between a sixth and a third were missed or caught only as `no-failing-input-found`; every gap was closed by "
            "strengthening the generators / predicates of the check concerned (never by special-casing the seed: the additions are families, corpora and "
            "predicates described in the RULE text of each evidence file), and the table below is the state after those repairs, from one full pass of "
            "`tools/seeded.py -j 3` (VERIF_SEED=0). A second full pass under VERIF_SEED=1 (the seed `vp check` exports) detected %d of %d runnable seeds "
